@@ -18,3 +18,7 @@ Definition perfrequency2perwavenumber (perhz f_grid : list R) : list R * list R 
   (map (fun y => y * c_speed_of_light) perhz, map frequency2wavenumber f_grid).
 Definition perwavenumber2perfrequency (perwn wn_grid : list R) : list R * list R :=
   (map (fun y => y / c_speed_of_light) perwn, map wavenumber2frequency wn_grid).
+
+(* modulus of a complex number given as the pair (re, im): the amplitude reflection coefficients of fresnel() for a
+   complex refractive index n2 are such pairs (gen/em.v: fresnel_complex_n2) *)
+Definition cabs (z : R * R) : R := sqrt (fst z * fst z + snd z * snd z).
